@@ -873,20 +873,21 @@ impl Check for C04 {
         }
     }
     fn rule(&self) -> String {
-        "each case = one seeded workload round (1..50 requests from the C03 size profiles and alignments, free order forward/reverse/interleaved/random, optional steady-state churn, optional sparse mmap refusals) repeated N times on one Dlmalloc (quick N=200; thorough N=200, every 8th case N=5000) over the simulated address space with placement by decision; 1 case in 6 runs 2..3 simulated threads through Mutex<Dlmalloc>. The provider's exact mapped-byte total is sampled after every call; maxima per window of N/8 rounds. Violation = maxima strictly increasing over the last 5 windows AND total growth >= 256 KiB AND mapped bytes at the end > 3 x peak live bytes + 8 MiB. non-trivial = >=3 requests per round and at least one trim or unmap happened; distinct = hash over operation counts and provider counters".into()
+        "each case = one seeded workload round (1..50 requests from the C03 size profiles and alignments, free order forward/reverse/interleaved/random, optional steady-state churn, optional sparse mmap refusals) repeated N times on one Dlmalloc (quick N=200; thorough N=200, every 8th case N=5000) over the simulated address space with placement by decision; 1 case in 6 runs 2..3 simulated threads through Mutex<Dlmalloc>. The provider's exact mapped-byte total is sampled after every call; maxima per window of N/8 rounds. Violation = maxima strictly increasing over the last 5 windows AND total growth >= 256 KiB AND mapped bytes at the end > 3 x peak live bytes + 8 MiB. non-trivial = >=3 requests per round and at least one trim or unmap happened; distinct = hash over operation counts and provider counters. Every 13th case (case % 13 == 12) runs on engine B instead (crates/checks/src/c04b.rs): probes/allocprobe, a no-libc binary whose global allocator is tiny-std's own GlobalDlMalloc, under the ptrace simulator: 64..200 rounds of 2..4 real threads (1 case in 6: main alone) each doing 1..5 times 'allocate 2..8 blocks (small/medium/>=64 KiB profiles), touch, free in a generated order', all joined, one uncontended alloc/free on main, ROUND_END; scheduling points at every system call and right after every atomic instruction (breakpoints), 2..6 further single steps behind an atomic instruction every other time with the preempted thread held back 0..12 quanta, <=24 random bursts; mapped bytes = the tracer's mapping ledger at each ROUND_END (cross-checked with /proc/pid/maps); same growth oracle, signature footprint|unbounded-growth|global-allocator; non-trivial there = >=2 threads and a futex park or a burst while two threads were alive".into()
     }
     fn assumptions(&self) -> Vec<String> {
         vec![
             "the oracle decides unbounded growth, not a tight constant: a bounded plateau of any height is accepted".into(),
-            "the threaded variant drives tiny_std::sync::Mutex<Dlmalloc> (the composition GlobalDlMalloc uses); the private GlobalDlMalloc wrapper type itself is not linked into the harness".into(),
+            "the engine-A threaded variant drives tiny_std::sync::Mutex<Dlmalloc> (the composition GlobalDlMalloc uses); the private GlobalDlMalloc wrapper type itself runs only in the engine-B cases (1 in 12), as the #[global_allocator] of probes/allocprobe".into(),
+            "engine-B cases: sequentially consistent interleavings at atomic-instruction / system-call granularity (plus single-step windows); mapped bytes are sampled at round ends only".into(),
         ]
     }
     fn components(&self) -> Value {
-        json!({"real": ["tiny_std::allocator::dlmalloc::Dlmalloc", "tiny_std::sync::Mutex (threaded variant)"], "stub": ["mmap/mremap/munmap (memory provider)", "futex and threads (threaded variant)", "the GlobalAlloc wrapper (GlobalDlMalloc) is replaced by an equivalent Mutex<Dlmalloc> in the harness"]})
+        json!({"real": ["tiny_std::allocator::dlmalloc::Dlmalloc", "tiny_std::sync::Mutex (threaded variant)"], "stub": ["mmap/mremap/munmap (memory provider)", "futex and threads (threaded variant)", "the GlobalAlloc wrapper (GlobalDlMalloc) is replaced by an equivalent Mutex<Dlmalloc> in the engine-A harness; engine-B cases: real GlobalDlMalloc, real threads and kernel mmap/munmap, stubbed scheduling/futex (ptsim)"]})
     }
     fn run(&self, case: u64, dec: Dec, opts: &RunOpts) -> RunOut {
         // every 12th case: the private GlobalDlMalloc wrapper itself, real threads, engine B
-        if case % 12 == 11 {
+        if case % 13 == 12 {
             return crate::c04b::c04_engine_b(case, dec, opts);
         }
         let rounds = if opts.tier == Tier::Thorough && case % 8 == 0 { 5000 } else { 200 };
